@@ -744,7 +744,7 @@ func New() *FunctionGenerator {
 		AddOpImpl("-", false, Sub(f)).
 		AddOpImpl("<<", false, Left(f)).
 		AddOpImpl(">>", false, Right(f)).
-		AddOpImpl("*", true, Mul(f)).
+		AddOpImpl("*", false, Mul(f)).
 		AddOpImpl("%", false, Mod(f)).
 		AddOpImpl("/", false, Div(f)).
 		AddOpImpl("^", false, Pow(f)).
